@@ -109,3 +109,32 @@ PROPS["C13"] = Spec(
     bounds={"quick": "full matrix (~1000 cells) + 4x4000 generated sequences", "thorough": "full matrix + 16x30000 generated sequences"},
     assumptions=COMMON_ASSUMPTIONS,
 )
+
+_E5_ASSUME = COMMON_ASSUMPTIONS + [
+    "event objects are dispatched once; queue sizes of overflow-prone subscribers are pairwise distinct so that each "
+    "SignalQueueFull warning (which names the queue size) is attributed to one subscriber",
+    "filtered subscribers get queues that never overflow (whether non-passing events occupy queue slots is not specified)",
+]
+PROPS["C11"] = Spec(
+    engine="harness.engines.signals", quick_cases=1500, thorough_cases=15000,
+    rule="class hierarchies with 1-4 Signal attributes (3 event classes, inherited and overriding declarations; plain owners and "
+    "value-equal frozen-dataclass owners), 1-3 instances, a generated permutation of first accesses, then a sequential history of "
+    "open-stream (1-3 channels) / dispatch (incl. subclass events) / consume / leave / wrong-class dispatch / class-level use / "
+    "wait_event; finally all owners are dropped (with or without a live subscriber) and must be collectable; oracle = identity "
+    "and pairwise distinctness of bound signals, per-subscriber FIFO model (an event reaches only its channel's subscribers), "
+    "topic/source stamps, TypeError / UnboundSignal, dead weakrefs; non-trivial = (>=2 signals on one instance or >=2 instances) "
+    "and dispatches on >=2 channels",
+    bounds={"quick": "<=3 classes, <=4 signals each, <=3 instances, 3-25 ops, 4x1500 cases", "thorough": "3-45 ops, 16x15000 cases"},
+    assumptions=_E5_ASSUME,
+)
+PROPS["C10"] = Spec(
+    engine="harness.engines.signals", quick_cases=1500, thorough_cases=15000,
+    rule="60% sequential histories (exact per-subscriber bounded-FIFO model: open with queue sizes 0-7 or large, filters, multi-signal "
+    "streams, dispatch bursts, consume, leave with sentinel, iterator aclose, wait_event tasks) and 40% concurrent programs "
+    "(1-3 consumer tasks with generated pacing, take-counts and cancellation, 1-2 dispatcher tasks; validity oracle: every "
+    "(dispatch, subscriber) pair is either received or warned about, warnings legal only at full backlog and mandatory beyond "
+    "capacity+1, received = delivered-and-passing in dispatch order); non-trivial = >=2 subscribers with different queue "
+    "size/filter on one channel and an overflow or a subscriber that left while dispatching continues",
+    bounds={"quick": "3-25 ops / <=3 consumers x <=2 dispatchers x <=8 steps, 4x1500 cases", "thorough": "3-45 ops / <=14 steps, 16x15000 cases"},
+    assumptions=_E5_ASSUME,
+)
